@@ -9,11 +9,12 @@
 static ssize_t sf_read(void *c, char *buf, size_t n) {
   SimFile *f = (SimFile *)c;
   f->n_read_calls++;
-  long avail = (long)f->data.size() - f->pos;
+  long avail = (f->synth ? f->synth_len : (long)f->data.size()) - f->pos;
   if (avail <= 0 || n == 0) { simsched::io_event(simsched::EV_IO_READ, f->id, 0); return 0; }
   size_t k = n < (size_t)avail ? n : (size_t)avail;
   if (f->short_io && k > 1 && f->io_rng.chance(0.3)) { k = 1 + f->io_rng.below(k - 1); f->short_reads++; }
-  memcpy(buf, f->data.data() + f->pos, k);
+  if (f->synth) { for (size_t q = 0; q < k; q++) buf[q] = (char)SimFile::synth_byte(f->synth_seed, (uint64_t)(f->pos + q)); }
+  else memcpy(buf, f->data.data() + f->pos, k);
   f->pos += k;
   f->bytes_read += k;
   simsched::io_event(simsched::EV_IO_READ, f->id, (long)k);
@@ -24,7 +25,8 @@ static ssize_t sf_write(void *c, const char *buf, size_t n) {
   f->n_write_calls++;
   if (n == 0) return 0;
   size_t k = n;
-  if (f->short_io && k > 1 && f->io_rng.chance(0.3)) { k = 1 + f->io_rng.below(k - 1); f->short_writes++; }
+  // no short writes: glibc's cookie write path does not retry a short count (it reports an error and drops the
+  // rest), unlike its write path for real descriptors, so a short cookie write would be a fault stdio does not hide
   if (f->size_cap >= 0 && f->pos + (long)k > f->size_cap) {
     long room = f->size_cap - f->pos;
     f->cap_hit = true;
@@ -48,7 +50,7 @@ static int sf_seek(void *c, off64_t *off, int whence) {
   long np;
   if (whence == SEEK_SET) np = *off;
   else if (whence == SEEK_CUR) np = f->pos + *off;
-  else if (whence == SEEK_END) np = (long)f->data.size() + *off;
+  else if (whence == SEEK_END) np = (f->synth ? f->synth_len : (long)f->data.size()) + *off;
   else return -1;
   if (np < 0) return -1;
   f->pos = np;
